@@ -1853,6 +1853,16 @@ class Evaluator:
                 f = self.first_of(it0)
                 if f is not None:
                     return f
+            if name == 'last':
+                it0 = self.as_iter(a0)
+                if isinstance(it0, tuple) and it0[0] == 'take_while' and isinstance(it0[1], tuple) and it0[1] and it0[1][0] == 'elems' \
+                        and it0[2][0] == 'lam' and T.is_bool(it0[2][2]):
+                    # the last element of the prefix satisfying P is the one before the first element violating it
+                    v, d, P = it0[1][1], it0[2][1], it0[2][2]
+                    Pe = T.substitute(P, {T.bv(d): T.proj(T.bv(d), 1)})
+                    F = ('first', ('enumerate', it0[1]), ('lam', d, T.tnot(Pe)))
+                    i = T.ite(('matches', F, 'Some'), T.root(T.proj(('case', F, 'Some', 0), 0)), T.root(('len', v)))
+                    return ('boolthen', T.cmp('Ge', i, T.const(1)), T.root(('idx', v, T.sub(i, T.const(1)))))
             if name in ('next', 'last', 'peek'):
                 return (name + 'of', self.as_iter(a0))
             if name in ('any', 'all') and len(args) == 2:
@@ -2027,6 +2037,10 @@ class Evaluator:
                 return T.cmp('Le', su[2], su[1]), T.sub(su[1], su[2])
             if su[0] == 'boolthen':
                 return su[1], su[2]
+            if su[0] == 'optmap' and su[2][0] == 'lam' and self.opt_view(su[1]) is not None:
+                c, x = self.opt_view(su[1])
+                pay = T.substitute(su[2][2], {T.bv(su[2][1]): T.unroot(x) if not T.is_lin(x) or T.single_root(x) is not None else x})
+                return c, pay
             if su[0] in ('optproj', 'optmap') and isinstance(su[1], tuple) and su[1] and su[1][0] == 'first':
                 # an Option computed from a search (position / find().map(..)): Some iff the search hits
                 F = su[1]
